@@ -1,4 +1,5 @@
 import Reclass.Props.C05
+import Reclass.Props.C05c
 open Reclass
 #print axioms Reclass.C05.rawString_scalars
 #print axioms Reclass.C05.rawString_str_vl
@@ -23,3 +24,8 @@ open Reclass
 #print axioms Reclass.C05.piece_value_closed
 #print axioms Reclass.C05.piece_vl_is_error
 #print axioms Reclass.C05.slice_no_panic
+#print axioms Reclass.C05c.lit_piece
+#print axioms Reclass.C05c.padded_ref_parses_combined
+#print axioms Reclass.C05c.padPieces_text
+#print axioms Reclass.C05c.padded_reference_is_text
+#print axioms Reclass.C05c.padded_reference_never_typed
